@@ -304,3 +304,40 @@ func FromCircuit(c *circuit.Circuit) Circ {
 	}
 	return res
 }
+
+// Padded returns a copy of the circuit with n extra gates in front of the
+// original ones (a chain of AND/XOR/INV gates over the first input wire whose
+// results are not used).  The function of the circuit is unchanged; the gate
+// count - and with it the size of everything that is derived from the gate
+// list - grows by n.
+func (c Circ) Padded(n int) Circ {
+	if n <= 0 {
+		return c
+	}
+	nin := c.NumIn()
+	res := Circ{In: append([]int{}, c.In...), Out: append([]int{}, c.Out...)}
+	res.Gates = make([]ref.Gate, 0, n+len(c.Gates))
+	prev := 0
+	for i := 0; i < n; i++ {
+		out := nin + i
+		switch i % 3 {
+		case 0:
+			res.Gates = append(res.Gates, ref.Gate{ref.AND, prev, 0, out})
+		case 1:
+			res.Gates = append(res.Gates, ref.Gate{ref.XOR, prev, 0, out})
+		default:
+			res.Gates = append(res.Gates, ref.Gate{ref.INV, prev, 0, out})
+		}
+		prev = out
+	}
+	shift := func(w int) int {
+		if w < nin {
+			return w
+		}
+		return w + n
+	}
+	for _, g := range c.Gates {
+		res.Gates = append(res.Gates, ref.Gate{g[0], shift(g[1]), shift(g[2]), shift(g[3])})
+	}
+	return res
+}
